@@ -379,9 +379,36 @@ func (e *Eng) verifyFunc(fobj *types.Func) {
 	exits = append(exits, e.exits...)
 	e.exits = exits
 	nret := 0
+	nexit := 0
 	for _, x := range e.exits {
 		if x.St == nil {
 			continue
+		}
+		if (x.Kind == ExitPanic || x.Kind == ExitReturn) && len(e.con.OnExit) > 0 {
+			nexit++
+			xenv := map[string]*Val{}
+			for k, v := range env {
+				xenv[k] = v
+			}
+			for n, o := range e.ghosts {
+				xenv[n] = x.St.vars[o]
+			}
+			xenv["panicked"] = scalar(fmt.Sprint(x.Kind == ExitPanic), "Bool", nil)
+			if pv, ok := x.St.vars[e.recObj()]; ok && x.Kind == ExitReturn {
+				xenv["panicked"] = pv
+			}
+			kind := "return"
+			if x.Kind == ExitPanic {
+				kind = "panic"
+			}
+			for qi, q := range e.con.OnExit {
+				if e.con.OnExitProp[qi] != "" && e.con.OnExitProp[qi] != e.propID {
+					continue
+				}
+				g := e.evalSpec(x.St, q, xenv, env)
+				e.oblige(x.St, "onexit", fmt.Sprintf("#%d@%s%d", qi+1, kind, nexit), g.T, x.Pos)
+				e.obls[len(e.obls)-1].Src = e.con.OnExitSrc[qi]
+			}
 		}
 		if x.Kind == ExitPanic {
 			if e.con.NoEscape {
